@@ -209,7 +209,7 @@ theorem code_path_matchers (env : Go.Env) (c : Pb.OIDCConfig) (h : Pb.AttributeC
     (hl : cfg.logout = if c.GetLogout.isNil then none else some (c.GetLogout.Path, c.GetLogout.RedirectUri))
     (hp : req.path = h.GetPath) (hh : req.host = h.GetHost)
     (u : Go.URL) (e : Bool) (hu : env.urlParseOracle c.GetCallbackUri = (u, e)) (hun : u.isNil = false)
-    (h1 : cfg.cbScheme = u.Scheme) (h2 : cfg.cbHost = u.hostname) (h3 : cfg.cbPort = u.port) (h4 : cfg.cbPath = u.Path) :
+    (h1 : cfg.cbScheme = u.Scheme) (h2 : cfg.cbHost = u.hostname) (h3 : cfg.cbPort = u.port) (h4 : cfg.cbPath = u.escapedPath) :
     Code.matchesLogoutPath env c h = .ok (matchesLogout cfg req) ∧
     Code.matchesCallbackPath env c h = .ok (matchesCallback cfg req) :=
   ⟨code_matchesLogout env c h cfg req hl hp, code_matchesCallback env c h cfg req u e hu hun h1 h2 h3 h4 hp hh⟩
